@@ -21,7 +21,7 @@ from flask_socketio import SocketIO
 from werkzeug.routing import BaseConverter, Map  # type: ignore
 from werkzeug.middleware.proxy_fix import ProxyFix
 from flask_jwt_extended import JWTManager
-from sqlalchemy.exc import IntegrityError
+from sqlalchemy.exc import IntegrityError, PendingRollbackError, StatementError
 from sqlalchemy.orm.exc import ObjectDeletedError, StaleDataError
 from netifaces import interfaces, ifaddresses, AF_INET
 
@@ -182,6 +182,7 @@ def create_app(config: JsonObject | None = None,
     @app.errorhandler(IntegrityError)
     @app.errorhandler(StaleDataError)
     @app.errorhandler(ObjectDeletedError)
+    @app.errorhandler(PendingRollbackError)
     def database_conflict(err: Exception) -> Response:
         """
         The rows that this request was working on have been changed or
@@ -190,6 +191,14 @@ def create_app(config: JsonObject | None = None,
         logging.warning('Conflict with another request: %s', err)
         db.session.rollback()
         return make_response('Conflict with another request', 409)
+
+    @app.errorhandler(StatementError)
+    def database_statement_error(err: StatementError) -> Response:
+        # a deleted row can also be noticed while the parameters of a
+        # statement are collected
+        if isinstance(err.orig, (ObjectDeletedError, StaleDataError)):
+            return database_conflict(err)
+        raise err
 
     @app.errorhandler(FileNotFoundError)
     def media_file_missing(err: FileNotFoundError) -> Response:
